@@ -489,6 +489,9 @@ class TextNmea2000Gateway(AsyncIOClient):
         by the _receive_loop() method.
         """
         data = await self.reader.readline()
+        if not data:
+            # end of stream: readline() returns b'' immediately and forever
+            raise ConnectionError("Connection closed by the gateway")
         self.logger.debug(f"Received: {data.hex()}")
         line = data.decode('utf-8', errors='ignore').strip()
         try:
@@ -694,6 +697,9 @@ class WaveShareNmea2000Gateway(AsyncIOClient):
         It's called repeatedly by the _receive_loop() method.
         """
         data = await self.reader.read(100)
+        if not data:
+            # end of stream: read() returns b'' immediately and forever
+            raise ConnectionError("Connection closed by the device")
         self.logger.debug(f"Received: {data.hex()}")
         assert self._buffer is not None
         self._buffer.extend(data)
